@@ -516,6 +516,116 @@ async fn d18_empty_block_behind_a_cleared_tail() {
     }
 }
 
+/// D22 (C01, found by a defect-hunting sub-agent in round 2): clearing a range again is a no-op,
+/// not an error.  The data store shrinks when a hole reaches its end (both backends turn such a
+/// delete into a truncate); a later clear of a block whose offset now lies beyond the end asked
+/// the backend to delete past the end of the file, which both backends refuse.
+#[tokio::test]
+async fn d22_clearing_again_beyond_the_shrunk_store() {
+    for disk in [false, true] {
+        let dir = tempdir_path("d22");
+        let mut c = if disk {
+            HypercoreBuilder::new(hypercore::Storage::new_disk(&dir, true).await.unwrap()).key_pair(keys()).build().await.unwrap()
+        } else {
+            HypercoreBuilder::new(hypercore::Storage::new_memory().await.unwrap()).key_pair(keys()).build().await.unwrap()
+        };
+        c.append_batch([&b"a"[..], &b""[..], &b"b"[..]]).await.unwrap();
+        c.clear(2, 3).await.unwrap(); // data store: 2 -> 1 bytes
+        c.clear(0, 1).await.unwrap(); // data store: 1 -> 0 bytes
+        c.clear(2, 3).await.expect("clearing a cleared block again");
+        assert_eq!(c.get(0).await.unwrap(), None);
+        assert_eq!(c.get(1).await.unwrap(), Some(vec![]), "disk = {disk}");
+        assert_eq!(c.get(2).await.unwrap(), None);
+        assert_eq!(c.info().length, 3);
+        assert_eq!(c.info().byte_length, 2);
+        let _ = std::fs::remove_dir_all(&dir);
+    }
+}
+
+/// D23 (C14, found by a defect-hunting sub-agent in round 2): a node cache of a few nodes changes
+/// no observation.  Four call sites gave the tree exactly two passes (clear's byte offset, the byte
+/// offset of an applied block, verify_proof, the truncate of a replayed entry): the first pass found
+/// a node in the cache and asked for the others, the cache evicted that node, and the second pass
+/// asked for it — which those call sites answered with "Could not read offset ... from tree".
+#[tokio::test]
+async fn d23_a_tiny_node_cache_changes_no_observation() {
+    use hypercore::CacheOptionsBuilder;
+    // writer: clear after k gets (moka applies pending evictions every so many operations)
+    for cap in [1u64, 84, 168, 252] {
+        for k in 0..100u64 {
+            let d = Disk::new();
+            let kp = fixed_keys();
+            let mut c = create(&d, kp).await;
+            for i in 0..9u8 {
+                c.append(&[i]).await.unwrap();
+            }
+            drop(c);
+            let mut c = HypercoreBuilder::new(d.storage().await)
+                .open(true)
+                .node_cache_options(CacheOptionsBuilder::new().max_capacity(cap))
+                .build()
+                .await
+                .unwrap();
+            for j in 0..k {
+                c.get((j * 5 + 4) % 8).await.unwrap();
+            }
+            c.clear(7, 8).await.unwrap_or_else(|e| panic!("capacity {cap}, clear after {k} gets: {e:?}"));
+            assert_eq!(c.get(7).await.unwrap(), None);
+            assert_eq!(c.get(6).await.unwrap(), Some(vec![6]));
+        }
+    }
+    // replica: applying a block after k gets
+    let mut w = create(&Disk::new(), fixed_keys()).await;
+    for i in 0..9u8 {
+        w.append(&[i]).await.unwrap();
+    }
+    let public = PartialKeypair { public: fixed_keys().public, secret: None };
+    let rd = Disk::new();
+    let mut r = create(&rd, public.clone()).await;
+    let mut last = None;
+    for (step, i) in [4u64, 0, 1, 2, 3, 7].iter().enumerate() {
+        let nodes = r.missing_nodes(*i).await.unwrap();
+        let upgrade = if step == 0 { Some(RequestUpgrade { start: 0, length: 9 }) } else { None };
+        let p = w.create_proof(Some(RequestBlock { index: *i, nodes }), None, None, upgrade).await.unwrap().unwrap();
+        if *i == 7 {
+            last = Some(p);
+        } else {
+            assert!(r.verify_and_apply_proof(&p).await.unwrap());
+        }
+    }
+    drop(r);
+    let last = last.unwrap();
+    let stores: Vec<Vec<u8>> = {
+        let mut v = vec![];
+        for st in [Store::Tree, Store::Data, Store::Bitfield, Store::Oplog] {
+            v.push(rd.read_all(st).await);
+        }
+        v
+    };
+    for cap in [1u64, 84, 168, 252] {
+        for k in 0..100u64 {
+            let d = Disk::new();
+            for (st, bytes) in [Store::Tree, Store::Data, Store::Bitfield, Store::Oplog].into_iter().zip(&stores) {
+                if !bytes.is_empty() {
+                    d.write_raw(st, 0, bytes).await;
+                }
+            }
+            let mut r = HypercoreBuilder::new(d.storage().await)
+                .open(true)
+                .node_cache_options(CacheOptionsBuilder::new().max_capacity(cap))
+                .build()
+                .await
+                .unwrap();
+            for j in 0..k {
+                r.get((j * 3 + 4) % 5).await.unwrap();
+            }
+            let applied = r.verify_and_apply_proof(&last).await.unwrap_or_else(|e| panic!("capacity {cap}, block applied after {k} gets: {e:?}"));
+            assert!(applied);
+            assert_eq!(r.get(7).await.unwrap(), Some(vec![7]));
+        }
+    }
+}
+
 fn tempdir_path(tag: &str) -> std::path::PathBuf {
     let mut p = std::env::temp_dir();
     p.push(format!("hc_triage_{tag}_{}", std::process::id()));
@@ -654,4 +764,61 @@ async fn d20_single_node_hash_proof_with_a_forged_length_is_refused() {
     assert_eq!(replica.get(1).await.expect("block 1 must still be readable"), Some(b"de".to_vec()));
     // and the honest node is still accepted
     assert!(replica.verify_and_apply_proof(&honest).await.is_ok());
+}
+
+/// D24 (C12 / C02, found by defect-hunting sub-agents in two rounds): log entries that a crashed flush
+/// left behind (header written, truncate not reached) are ignored at open because they carry the
+/// previous header bit, but nothing removed them — and an entry's generation is one bit, so the
+/// next header write that is not preceded by an entry write (make_read_only's, which after fix D19
+/// also runs on an already read-only core) made them current again.  Interrupted there once more,
+/// the next open replayed entries the header already contained, as a truncation of the tree.
+#[tokio::test]
+async fn d24_stale_entries_are_cut_off_at_open() {
+    for big in [false, true] {
+        let d = Disk::new();
+        let mut c = create(&d, keys()).await;
+        c.append(b"a").await.unwrap(); // flushed
+        if big {
+            let blocks: Vec<Vec<u8>> = (0..300u32).map(|i| i.to_le_bytes().to_vec()).collect();
+            c.append_batch(&blocks).await.unwrap(); // one pending entry
+        } else {
+            c.append(b"b").await.unwrap(); // one pending entry
+        }
+        let len = c.info().length;
+        for _round in 0..2 {
+            // how many mutating operations does make_read_only issue from here?  (the last three
+            // are: header write, log truncate, header write)
+            let total = {
+                let twin = Disk::new();
+                for st in [Store::Tree, Store::Data, Store::Bitfield, Store::Oplog] {
+                    let bytes = d.read_all(st.clone()).await;
+                    if !bytes.is_empty() {
+                        twin.write_raw(st, 0, &bytes).await;
+                    }
+                }
+                let mut t = reopen(&twin).await.unwrap();
+                let before = twin.ops();
+                let _ = t.make_read_only().await.unwrap();
+                twin.ops() - before
+            };
+            assert!(total >= 3);
+            // the state on disk is what `c` has written so far; interrupt its call before the truncate
+            d.crash_after(total - 2);
+            let _ = c.make_read_only().await;
+            drop(c);
+            d.heal();
+            c = reopen(&d).await.expect("reopen after a crash inside make_read_only");
+            assert_eq!(c.info().length, len);
+        }
+        let _ = c.make_read_only().await.unwrap();
+        drop(c);
+        let mut c = reopen(&d).await.expect("reopen after make_read_only completed");
+        assert_eq!(c.info().length, len);
+        assert_eq!(c.get(0).await.unwrap(), Some(b"a".to_vec()));
+        let last = c.get(len - 1).await.expect("the last block must be readable after the interrupted calls");
+        assert!(last.is_some());
+        // and the log holds nothing beyond what open accepts
+        let oplog = d.read_all(Store::Oplog).await;
+        assert_eq!(oplog.len(), 8192, "stale bytes left in the log");
+    }
 }
